@@ -977,7 +977,7 @@ entries are `Good` and stale for this run (no call addresses them).  Then the fi
 theorem fileAfter_record (fs : FS) (p : Text) (es₀ : List Entry) (h : List Step) (sortOpt : Bool)
     (hholds : Holds fs p (es₀ ++ entriesOf h)) (hgood : Good (es₀ ++ entriesOf h))
     (hrec₀ : ∀ e ∈ es₀, Recognised e)
-    (htest : ∀ t ∈ calledNames h, hasPrefix t [84, 101, 115, 116] = true ∧ (32 : Byte) ∉ t)
+    (htest : ∀ t ∈ calledNames h, (32 : Byte) ∉ t)
     (hto : sortOpt = true → TotalOn ((es₀ ++ entriesOf h).map tidOf)) :
     FileAfter fs p (es₀ ++ entriesOf h) h sortOpt where
   holds := hholds
@@ -1016,7 +1016,7 @@ theorem go_record_fileAfter (env : Env) (c : Cfg) (caller p rel : Text) (fs₀ :
     (hns : ∀ s ∈ texts h, ∀ id ∈ ids es₀ ++ headers h, id ∉ lines s)
     (hcreate : shouldCreate env c.update = true)
     (hrec₀ : ∀ e ∈ es₀, Recognised e)
-    (htest : ∀ t ∈ calledNames h, hasPrefix t [84, 101, 115, 116] = true ∧ (32 : Byte) ∉ t)
+    (htest : ∀ t ∈ calledNames h, (32 : Byte) ∉ t)
     (hto : sortOpt = true → TotalOn ((es₀ ++ entriesOf h).map tidOf)) :
     ∃ rcd, goRun IOFail.never c caller (freshSt env fs₀) h = some rcd ∧
       FileAfter rcd.fs p (es₀ ++ entriesOf h) h sortOpt ∧ Good (es₀ ++ entriesOf h) := by
@@ -1030,7 +1030,7 @@ theorem go_record_fileAfter (env : Env) (c : Cfg) (caller p rel : Text) (fs₀ :
 
 Hypotheses of `go_replay_history` (scoped history, `Good` initial file none of whose lines is a header of
 the history, usable names and texts, NoShadow, creating mode), plus: the headers of the initial file are
-recognised by `getTestID` (`hrec₀`), the test names start with `Test` and contain no space (`htest`; needed:
+recognised by `getTestID` (`hrec₀`), the test names contain no space (`htest`; since the repair of D11 they need not start with `Test`; needed:
 `C07World.recognised_history`), `natural.Less` is total on the ids if `Sort` is requested (`hto`), and the
 two oracle-side hypotheses `hre`, `hj`.  `-count=1` (a `Scoped` history executes every test once).  Then:
 the record run does not panic and leaves `es₀ ++ entriesOf h` in `p`; `Clean` — any mode of `env`, sort on
@@ -1051,7 +1051,7 @@ theorem go_record_then_clean (env env' : Env) (c c' : Cfg) (caller caller' p rel
     (hns : ∀ s ∈ texts h, ∀ id ∈ ids es₀ ++ headers h, id ∉ lines s)
     (hcreate : shouldCreate env c.update = true)
     (hrec₀ : ∀ e ∈ es₀, Recognised e)
-    (htest : ∀ t ∈ calledNames h, hasPrefix t [84, 101, 115, 116] = true ∧ (32 : Byte) ∉ t)
+    (htest : ∀ t ∈ calledNames h, (32 : Byte) ∉ t)
     (hto : opts.head?.getD false = true → TotalOn ((es₀ ++ entriesOf h).map tidOf))
     (hre : ∀ s, (re [] s).1 = true)
     (hj : (Generated.shouldClean env && !env.isCI) = true → JoinFaithful (fpDir p)) :
@@ -1091,7 +1091,7 @@ theorem go_record_then_clean (env env' : Env) (c c' : Cfg) (caller caller' p rel
 through an arbitrary history — entries created, found, updated, reported — and shows that it stays `Good`.
 With `goRun_reached` this discharges `FileAfter` (all of it but the totality of `natural.Less`, which is
 asked only when `Sort` is requested) from hypotheses about the INPUTS: the initial file, the test names and
-the texts (`NoShadowAll`: finding D9 otherwise; `hrec₀`, `htest`: finding D11 otherwise). -/
+the texts (`NoShadowAll`: finding D9 otherwise; `hrec₀`, `htest`: the headers are recognised). -/
 
 /-- an entry whose header is recognised keeps being recognised whatever its body is -/
 theorem recognised_of_id {a b : Entry} (h : a.id = b.id) (hb : Recognised b) : Recognised a := by
@@ -1108,7 +1108,7 @@ theorem goRun_fileAfter (env : Env) (fs₀ : FS) (c : Cfg) (caller p rel : Text)
     (hfile : Holds fs₀ p es₀) (hgood : Good es₀)
     (hns : NoShadowAll es₀ (calledNames h) (texts h))
     (hrec₀ : ∀ e ∈ es₀, Recognised e)
-    (htest : ∀ t ∈ calledNames h, hasPrefix t [84, 101, 115, 116] = true ∧ (32 : Byte) ∉ t)
+    (htest : ∀ t ∈ calledNames h, (32 : Byte) ∉ t)
     (hce : fsRead fs₀ p ≠ none ∨ shouldCreate env c.update = true) :
     ∃ st1 es, goRun IOFail.never c caller (freshSt env fs₀) h = some st1 ∧
       FileInv es₀ (calledNames h) (texts h) es ∧
@@ -1122,7 +1122,7 @@ theorem goRun_fileAfter (env : Env) (fs₀ : FS) (c : Cfg) (caller p rel : Text)
     · obtain ⟨o₀, ho₀, e⟩ := List.mem_map.mp hi
       exact recognised_of_id e.symm (hrec₀ o₀ ho₀)
     · exact recognised_of_id (b := ⟨testID t k, o.body⟩) hi
-        (C07World.recognised_testID t o.body k (htest t ht).1 (htest t ht).2)
+        (C07World.recognised_testID t o.body k (htest t ht))
   · intro hne
     rw [hr.rel.fs]
     apply hx
@@ -1148,7 +1148,7 @@ theorem go_matched_survive_clean_any_mode (env : Env) (fs₀ : FS) (c : Cfg) (ca
     (hfile : Holds fs₀ p es₀) (hgood : Good es₀)
     (hns : NoShadowAll es₀ (calledNames h) (texts h))
     (hrec₀ : ∀ e ∈ es₀, Recognised e)
-    (htest : ∀ t ∈ calledNames h, hasPrefix t [84, 101, 115, 116] = true ∧ (32 : Byte) ∉ t)
+    (htest : ∀ t ∈ calledNames h, (32 : Byte) ∉ t)
     (hce : fsRead fs₀ p ≠ none ∨ shouldCreate env c.update = true)
     (hcnt : cnt > 0) (hre : ∀ s, (re [] s).1 = true)
     (hj : (Generated.shouldClean env && !env.isCI) = true → JoinFaithful (fpDir p)) :
@@ -1179,13 +1179,13 @@ theorem texts_append (h1 h2 : List Step) : texts (h1 ++ h2) = texts h1 ++ texts 
 /-- `FileInv` + recognised headers ⇒ `CleanFile` -/
 theorem cleanFile_of_fileInv {es₀ : List Entry} {N T : List Text} {es : List Entry} (hinv : FileInv es₀ N T es)
     (hrec₀ : ∀ e ∈ es₀, Recognised e)
-    (htest : ∀ t ∈ N, hasPrefix t [84, 101, 115, 116] = true ∧ (32 : Byte) ∉ t) : CleanFile es := by
+    (htest : ∀ t ∈ N, (32 : Byte) ∉ t) : CleanFile es := by
   refine cleanFile_of_good hinv.good (fun o ho => ?_)
   rcases hinv.ids o ho with hi | ⟨t, ht, k, hi⟩
   · obtain ⟨o₀, ho₀, e⟩ := List.mem_map.mp hi
     exact recognised_of_id e.symm (hrec₀ o₀ ho₀)
   · exact recognised_of_id (b := ⟨testID t k, o.body⟩) hi
-      (C07World.recognised_testID t o.body k (htest t ht).1 (htest t ht).2)
+      (C07World.recognised_testID t o.body k (htest t ht))
 
 /-- **the file after a run in two parts**: what `goRun_fileAfter` says about the whole run, about the SAME
     entry lists the file holds after the first part and at the end — no flow ever removes a header
@@ -1196,7 +1196,7 @@ theorem goRun_fileAfter_split (env : Env) (fs₀ : FS) (c : Cfg) (caller p rel :
     (hfile : Holds fs₀ p es₀) (hgood : Good es₀)
     (hns : NoShadowAll es₀ (calledNames (hA ++ hB)) (texts (hA ++ hB)))
     (hrec₀ : ∀ e ∈ es₀, Recognised e)
-    (htest : ∀ t ∈ calledNames (hA ++ hB), hasPrefix t [84, 101, 115, 116] = true ∧ (32 : Byte) ∉ t)
+    (htest : ∀ t ∈ calledNames (hA ++ hB), (32 : Byte) ∉ t)
     (hce : fsRead fs₀ p ≠ none ∨ shouldCreate env c.update = true) :
     ∃ aft esA st1 es, goRun IOFail.never c caller (freshSt env fs₀) hA = some aft ∧ Holds aft.fs p esA ∧
       goRun IOFail.never c caller (freshSt env fs₀) (hA ++ hB) = some st1 ∧
@@ -1243,7 +1243,7 @@ theorem go_addressed_survive_clean (env : Env) (fs₀ : FS) (c : Cfg) (caller p 
     (hns : NoShadowAll es₀ (calledNames (h1 ++ .call t s cmp x :: h2)) (texts (h1 ++ .call t s cmp x :: h2)))
     (hrec₀ : ∀ e ∈ es₀, Recognised e)
     (htest : ∀ t' ∈ calledNames (h1 ++ .call t s cmp x :: h2),
-      hasPrefix t' [84, 101, 115, 116] = true ∧ (32 : Byte) ∉ t')
+      (32 : Byte) ∉ t')
     (hce : fsRead fs₀ p ≠ none ∨ shouldCreate env c.update = true)
     (hre : ∀ s, (re [] s).1 = true)
     (hj : (Generated.shouldClean env && !env.isCI) = true → JoinFaithful (fpDir p)) :
@@ -1296,7 +1296,7 @@ theorem go_no_update_no_loss_any_mode (env : Env) (fs₀ : FS) (c : Cfg) (caller
     (hfile : Holds fs₀ p es₀) (hgood : Good es₀)
     (hns : NoShadowAll es₀ (calledNames h) (texts h))
     (hrec₀ : ∀ e ∈ es₀, Recognised e)
-    (htest : ∀ t ∈ calledNames h, hasPrefix t [84, 101, 115, 116] = true ∧ (32 : Byte) ∉ t)
+    (htest : ∀ t ∈ calledNames h, (32 : Byte) ∉ t)
     (hce : fsRead fs₀ p ≠ none ∨ shouldCreate env c.update = true)
     (hcnt : cnt > 0) (hre : ∀ s, (re [] s).1 = true)
     (hnd : (Generated.shouldClean env && !env.isCI) = false) :
@@ -1330,7 +1330,7 @@ theorem go_second_clean_changes_nothing_any_mode (env : Env) (fs₀ : FS) (c : C
     (hfile : Holds fs₀ p es₀) (hgood : Good es₀)
     (hns : NoShadowAll es₀ (calledNames h) (texts h))
     (hrec₀ : ∀ e ∈ es₀, Recognised e)
-    (htest : ∀ t ∈ calledNames h, hasPrefix t [84, 101, 115, 116] = true ∧ (32 : Byte) ∉ t)
+    (htest : ∀ t ∈ calledNames h, (32 : Byte) ∉ t)
     (hce : fsRead fs₀ p ≠ none ∨ shouldCreate env c.update = true)
     (hcnt : cnt > 0) (hre : ∀ s, (re [] s).1 = true)
     (hnd : (Generated.shouldClean env && !env.isCI) = false) (hjf : JoinFaithful (fpDir p)) :
